@@ -66,7 +66,7 @@ func TestC28Known(t *testing.T) {
 		}
 		_, vs := apiCheck(ctx, c, v)
 		if wit.wire {
-			tb := w.store(c, []any{wit.raw}, t.Fatalf, func() {})
+			tb := w.store(c, false, []any{wit.raw}, t.Fatalf, func() {})
 			if len(tb.stored) != 1 {
 				t.Fatalf("%s: witness %s of %s was not stored", c.ddl, show(wit.raw), wit.id)
 			}
